@@ -171,7 +171,7 @@ func (w *walker) translate(st *state, callee *unit, recvExpr ast.Expr, args []as
 	return out
 }
 
-func (w *walker) recordCall(st *state, fn *types.Func, recvExpr ast.Expr, args []ast.Expr, async string) {
+func (w *walker) recordCall(st *state, fn *types.Func, recvExpr ast.Expr, args []ast.Expr, async string, pos token.Pos) {
 	if fn == nil || st.dead {
 		return
 	}
@@ -180,7 +180,11 @@ func (w *walker) recordCall(st *state, fn *types.Func, recvExpr ast.Expr, args [
 		return
 	}
 	if w.record {
-		w.u.calls = append(w.u.calls, callsite{callee: callee, held: w.translate(st, callee, recvExpr, args), async: async})
+		var all []lockItem
+		for it := range st.held {
+			all = append(all, it)
+		}
+		w.u.calls = append(w.u.calls, callsite{callee: callee, held: w.translate(st, callee, recvExpr, args), async: async, pos: pos, acq: acqOf(st, all)})
 	}
 }
 
@@ -223,7 +227,7 @@ func (w *walker) call(st *state, c *ast.CallExpr) {
 				// call through a func-typed field of a tracked type (s.loadFn(...))
 				if tn, ok := trackedName(sel.Recv()); ok {
 					for _, tgt := range w.an.fieldTgts[tn+"."+se.Sel.Name] {
-						w.recordCall(st, tgt, nil, c.Args, "")
+						w.recordCall(st, tgt, nil, c.Args, "", c.Pos())
 					}
 				}
 			}
@@ -254,7 +258,7 @@ func (w *walker) call(st *state, c *ast.CallExpr) {
 			if tn := namedOf(info.TypeOf(a)); tn != nil && tn.Pkg() == pkg {
 				if nt, ok := tn.Type().(*types.Named); ok {
 					for i := 0; i < nt.NumMethods(); i++ {
-						w.recordCall(st, nt.Method(i), nil, nil, "")
+						w.recordCall(st, nt.Method(i), nil, nil, "", c.Pos())
 					}
 				}
 			}
@@ -272,7 +276,7 @@ func (w *walker) call(st *state, c *ast.CallExpr) {
 		w.expr(st, a, false)
 	}
 	if fn != nil && fn.Pkg() == pkg {
-		w.recordCall(st, fn, recvExpr, c.Args, "")
+		w.recordCall(st, fn, recvExpr, c.Args, "", c.Pos())
 		if singleFns[unitName(fn)] && w.record {
 			w.an.runCalls[unitName(fn)]++
 			if len(w.frames) > 0 {
